@@ -89,8 +89,9 @@ def _responses(shard, ctx, res, only):
                 if only is not None and [n, kind, nbmax, spacing] != only:
                     continue
                 case = {"shard": shard, "inner": [n, kind, nbmax, spacing]}
+                std = [("median", "iqr"), ("mean", "std"), ("median", "mad"), ("norm", "norm")][(n + nbmax) % 4] if kind == "gaussian" else ("median", "iqr")
                 try:
-                    mf = MatchedFilter(x, temp_kind=kind, nbins_max=nbmax, spacing_factor=spacing)
+                    mf = MatchedFilter(x, loc_method=std[0], scale_method=std[1], temp_kind=kind, nbins_max=nbmax, spacing_factor=spacing)
                 except ValueError as e:
                     if "larger than the data" in str(e):
                         res.skip("bank_does_not_fit")
@@ -149,7 +150,9 @@ def _responses(shard, ctx, res, only):
                     res.evaluations += 1
                     c2 = {"shard": shard, "inner": [n, kind, nbmax, spacing]}
                     try:
-                        mf2 = MatchedFilter((np.float32(a) * x + np.float32(b)).astype(np.float32), temp_kind=kind, nbins_max=nbmax, spacing_factor=spacing)
+                        if std == ("norm", "norm"):
+                            break  # no standardisation requested: invariance is not expected
+                        mf2 = MatchedFilter((np.float32(a) * x + np.float32(b)).astype(np.float32), loc_method=std[0], scale_method=std[1], temp_kind=kind, nbins_max=nbmax, spacing_factor=spacing)
                     except Exception as e:  # noqa: BLE001
                         res.violation({"site": "MatchedFilter", "symptom": f"raised {type(e).__name__} on affine-mapped data"}, c2, repr(e))
                         continue
